@@ -8,6 +8,7 @@ import ast
 import copy
 import importlib
 import json
+import os
 import sys
 import traceback
 from fractions import Fraction
@@ -410,7 +411,20 @@ def run(path):
         return out, 12
 
 
+def _scratch_cwd():
+    # replayed functions may be handed relative file names from a counter-model: run them in a scratch directory
+    import atexit, os, shutil, tempfile
+    here = os.getcwd()
+    if here not in sys.path:
+        sys.path.insert(0, here)
+    d = tempfile.mkdtemp(prefix='pyvc-cwd.')
+    os.chdir(d)
+    atexit.register(lambda: (os.chdir(here), shutil.rmtree(d, ignore_errors=True)))
+
+
 if __name__ == '__main__':
-    o, code = run(sys.argv[1])
+    _rp = os.path.abspath(sys.argv[1])
+    _scratch_cwd()
+    o, code = run(_rp)
     print(json.dumps(o, indent=1, default=str))
     sys.exit(code)
